@@ -244,5 +244,7 @@ func init() {
 	e1Check("C07", "E1 safety-mode exploration with anti-MEV on / switching on / off; oracle on per-node callback order: commit only after own pre-commit, successful ProcessPreBlock (<=1 per height) and M current-view pre-commits; block built/signed only after that; below the enabling height no pre-commit, pre-block or ProcessPreBlock",
 		func(tier string) []*Job { return append(safetyFamily(tier, []int64{0, 5, -1}), e2Family(tier, []int64{0, 6})...) }, needKinds("PreCommit", "Commit"))
 	e1Check("C10", "E1 safety-mode exploration; oracle after every API call on an undecided validator: injected timer armed for exactly (BlockIndex, ViewNumber), non-negative duration, not consumed-and-not-rearmed",
-		func(tier string) []*Job { return append(safetyFamily(tier, []int64{-1, 0}), e2Family(tier, []int64{-1, 0})...) }, needKinds("CV", "RecReq"))
+		func(tier string) []*Job {
+			return append(append(safetyFamily(tier, []int64{-1, 0}), e2Family(tier, []int64{-1, 0})...), c10TimedJobs(tier)...)
+		}, needKinds("CV", "RecReq"))
 }
